@@ -198,11 +198,11 @@ func (sig *Signature) ExportCompact(recoveryCodeFirst bool, recoveryCodeOffset b
 		// Output <compactSigRecoveryCode><32-byte R><32-byte S>.
 		b[0] = v + recoveryCodeOffset
 		sig.r.PutBytesUnchecked(b[1:33])
-		sig.s.PutBytesUnchecked(b[33:65])
+		sigS.PutBytesUnchecked(b[33:65])
 	} else {
 		// Output <32-byte R><32-byte S><compactSigRecoveryCode>.
 		sig.r.PutBytesUnchecked(b[0:32])
-		sig.s.PutBytesUnchecked(b[32:64])
+		sigS.PutBytesUnchecked(b[32:64])
 		b[64] = v + recoveryCodeOffset
 	}
 	return b[:]
